@@ -42,7 +42,7 @@ CHECKS = {
  "C13": dict(level="model_checking", engine="E1-kani+E2-export-smt", design="DESIGN.md §2 C13",
    technique="Kani/CBMC on add_bias with a symbolic start prefix and has_valid_extensions (symbolic acceptor); the probe of ParserState::forced_byte as a source slice against a mock recogniser with a symbolic viable-byte set; SAT query on every exported lexer state for the soundness of the next-byte hint forced_byte trusts",
    text="Left-over forced bytes as mandatory prefix of the next mask: add_bias(r, set, start) equals the per-token test for every acceptor and every 1-2 byte start; has_valid_extensions agrees. K13.3: the probe statements of forced_byte (cut from the current source) answer Some(b) exactly when b is the only viable byte, for all 2^256 viable sets and every lexer hint. E2-13.3: ForcedByte(c) implies every other byte and end-of-input are dead, ForcedEOI implies every byte is dead, for every state of every exported automaton.",
-   note="chop_tokens as a whole does not fit CBMC (12.9 GB at 400 s); its token/byte accounting loop is decided as a source slice with symbolic token lengths. try_push_byte behind the probe, force_bytes, ff_tokens, process_prompt need the parser state and are outside."),
+   note="chop_tokens as a whole does not fit CBMC (12.9 GB at 400 s); its token/byte accounting loop is decided as a source slice with symbolic token lengths. K13.4 decides the byte accounting of process_prompt (source slice, mock tokenizer with one token per byte). try_push_byte behind the probe, force_bytes, ff_tokens need the parser state and are outside."),
  "C15": dict(level="translation_validation", engine="E2-export-smt+E1-kani", design="DESIGN.md §3 C15",
    technique="two-sided CYK encoding in z3 on Grammar::to_string before/after the real Grammar::optimize(), shared symbolic terminal word; Kani for the union-find of expand_shortcuts",
    text="For hand-written grammars, Lark snippets found in /repo's tests and docs, JSON schemas and seeded random grammars (chains, single/multi users, self reference, captures, max_tokens, nullable rules) the solver decides that before/after grammars derive the same terminal words up to N and that capture/max_tokens symbols survive; uf_find/uf_union/uf_compress_all are checked on every acyclic parent array of 6 symbols.",
